@@ -129,19 +129,31 @@ pub fn histories(p: u64, tier: Tier, heavy: bool) -> Vec<Vec<Action>> {
 /// page (the list then occupies an overflow page, or is left with one page more than it needs once
 /// it has given up its own pages), with a reopen after every commit.
 pub fn freelist_boundary_history(p: u64) -> Vec<Action> {
+    freelist_boundary_walk(p, 0)
+}
+
+/// `variant` 0: delete ascending; 1: delete descending (other pages end up next to the list page);
+/// 2: every single delete comes with a put of a fresh one-page value (the commit allocates from the
+/// free list it has just loaded); 3: as 2, descending.
+pub fn freelist_boundary_walk(p: u64, variant: u8) -> Vec<Action> {
     let cap = (p - 32) / 8;
     let n = cap + 24;
     let val = format!("F*{}", p * 6 / 10);
+    let name = |i: u64| -> String { if variant % 2 == 1 { format!("f{:05}", n - 1 - i) } else { format!("f{:05}", i) } };
     let mut ops = vec![OpSpec::bucket("create", &[], "f")];
     for i in 0..n {
         ops.push(OpSpec::put(&["f"], &format!("f{:05}", i), &val));
     }
     let mut acts = vec![tx(ops)];
     let bulk = cap.saturating_sub(14);
-    acts.push(tx((0..bulk).map(|i| OpSpec::del(&["f"], &format!("f{:05}", i))).collect()));
+    acts.push(tx((0..bulk).map(|i| OpSpec::del(&["f"], &name(i))).collect()));
     acts.push(Action::Reopen);
     for i in bulk..(bulk + 30).min(n) {
-        acts.push(tx(vec![OpSpec::del(&["f"], &format!("f{:05}", i))]));
+        let mut t = vec![OpSpec::del(&["f"], &name(i))];
+        if variant >= 2 && i % 2 == 0 {
+            t.push(OpSpec::put(&["f"], &format!("g{:05}", i), &val));
+        }
+        acts.push(tx(t));
         acts.push(Action::Reopen);
     }
     acts.push(tx(vec![OpSpec::put(&["f"], "after", "v*8")]));
